@@ -30,6 +30,7 @@ RULE = ('random single assemblies and small cores with axial power shapes '
         'PinModel; non-trivial when >= 20 planes and the peak differs from '
         'the outlet value or a pin model is present; distinct by (shape, '
         'regions, ducts, pin model)')
+RULE += (' Later rounds added: duct face averages of the duct table and all five peak-pin tables.')
 DECIDING = ['K1_peak_coolant', 'K2_peak_duct', 'K4_table_coolant_row']
 CASE_TIMEOUT = {'quick': 200, 'thorough': 900}
 BUDGET = {'quick': 600, 'thorough': 3000}
